@@ -196,6 +196,9 @@ def prune(root, keep, protect):
                 pass
         return False
     newest_repo = next((d for _, d in ds if is_repo(d)), None)
-    for _, d in ds[keep:]:
-        if d != protect and d != newest_repo:
+    import time as _time
+    now = _time.time()
+    for mt, d in ds[keep:]:
+        # never drop what was written in the last hour: another check running at the same time may still be reading it
+        if d != protect and d != newest_repo and now - mt > 3600:
             shutil.rmtree(os.path.join(root, d), ignore_errors=True)
